@@ -31,7 +31,10 @@ RULE = ('ba: op sequences (set/del/merge_in, up to 30 ops) on a REAL BoundedAttr
         '(order(), inactive, raising, None-returning), resource read back through convert_resource; sched: 2-3 writer '
         'THREADS on one real container (new / existing / same / invalid keys, capacity 0,1,2,n,None, one free slot or full), '
         'a random one of all interleavings of their two regions (arrive at the lock | pass through it) forced by a gated '
-        'stand-in for BoundedAttributes._lock. env: DeepResourceDetector().detect() in-process on COMPOSED texts of '
+        'stand-in for BoundedAttributes._lock. agg: get_aggregated_resources with an initial resource and 0-4 detectors '
+        '(returning resources / raising, with and without raise_on_error), the result also read through to_json, ==, hash, '
+        'len / iteration / copy of its attributes. start: a third of the provider sets with >= 2 providers has two or three providers '
+        'with the SAME class name (= plugin name) from different modules. env: DeepResourceDetector().detect() in-process on COMPOSED texts of '
         'DEEP_RESOURCE_ATTRIBUTES (0-21 random tokens: separators, valid/truncated/non-hex escapes, white space, key and '
         'value fragments; a tenth with escapes >= 0x80 / non-ASCII, oracle only) x DEEP_SERVICE_NAME set/empty/unset. Non-trivial = '
         'something was evicted/rejected/refused (ba), a key was overridden or a schema conflicted (merge), the '
@@ -233,6 +236,18 @@ ENV_TOKENS = ['a', 'b', 'k', 'key', '1', '2', 'x y', ',', ',', ',', '=', '=', '=
 ENV_TOKENS_UNMODELLED = ['é', '%C3%A9', '%FF', '\u00a0', '%80']
 
 
+def g_agg(rng):
+    """get_aggregated_resources: an initial resource and 0-4 detectors that return a resource or raise (with or
+    without raise_on_error); the result is also read through to_json / == / hash / the container views"""
+    dets = []
+    for _ in range(rng.choice([0, 1, 2, 3, 4])):
+        r = g_res(rng)
+        b = rng.choice(['ok', 'ok', 'ok', 'raise'])
+        dets.append({'attrs': named(r['attrs']), 'url': r['url'], 'behaviour': b,
+                     'roe': b == 'raise' and rng.random() < 0.3})
+    return {'kind': 'agg', 'initial': g_res(rng), 'detectors': dets}
+
+
 def g_envtext(rng):
     """the environment parser alone, on COMPOSED texts (not a menu of items): any mix of separators, escapes (valid,
     truncated, non-hex), white space and key/value fragments; DEEP_SERVICE_NAME set / empty / unset"""
@@ -349,6 +364,13 @@ def g_start(rng, none_seq=False):
         plugins.append({'attrs': r['attrs'], 'url': r['url'] if rng.random() < 0.3 else None,
                         'order': rng.choice([None, 0, 0, 1, 2, -1]),
                         'behaviour': rng.choice(['ok', 'ok', 'ok', 'ok', 'raise', 'none', 'inactive'])})
+    if len(plugins) >= 2 and rng.random() < 0.3:
+        # two (or three) DIFFERENT providers with the same class name from different modules (teamtools.ResourcePlugin and
+        # platformlib.ResourcePlugin): each is a configured provider, each one's resource is merged, in order
+        for i in rng.sample(range(len(plugins)), rng.choice([2, 2, min(3, len(plugins))])):
+            plugins[i]['cls'] = 'ResourcePlugin'
+            if plugins[i]['behaviour'] == 'inactive':
+                plugins[i]['behaviour'] = 'ok'
     return {'kind': 'start', 'env': env, 'unmodelled_env': unm, 'plugins': plugins,
             'python_plugin': rng.random() < 0.15}
 
@@ -373,6 +395,8 @@ def gen(rng, tier):
             yield g_sched(rng)
         elif k % 10 == 3:
             yield g_envtext(rng)
+        elif k % 20 == 9:
+            yield g_agg(rng)
         else:
             yield g_ba(rng)
 
@@ -419,6 +443,12 @@ def corpus():
             {'attrs': [[S('p'), {'t': 'seq', 'xs': [I(1), I(2)], 'as': 'list'}]], 'url': None, 'order': 1,
              'behaviour': 'ok'},
             {'attrs': [[S('p'), T('first')]], 'url': None, 'order': 0, 'behaviour': 'ok'}]},
+        # two different providers with the same class name (other modules): both are configured, both are merged
+        {'kind': 'start', 'env': {}, 'unmodelled_env': False, 'python_plugin': False, 'plugins': [
+            {'attrs': [[S('team'), T('tools')], [S('shared'), T('one')]], 'url': None, 'order': None, 'behaviour': 'ok',
+             'cls': 'ResourcePlugin'},
+            {'attrs': [[S('platform'), T('lib')], [S('shared'), T('two')]], 'url': None, 'order': None, 'behaviour': 'ok',
+             'cls': 'ResourcePlugin'}]},
     ]
 
 
@@ -665,6 +695,7 @@ def run_start(case):
     from deep.grpc import convert_resource
     mod = types.ModuleType(_PLUGMOD)
     names = []
+    mods = []
     calls = []
     for i, spec in enumerate(case['plugins']):
         def make(i=i, spec=spec):
@@ -679,10 +710,15 @@ def run_start(case):
 
                 def order(self):
                     return spec['order']
-            P.__name__ = P.__qualname__ = f'P{i}'
+            P.__name__ = P.__qualname__ = spec.get('cls') or f'P{i}'
             return P
-        setattr(mod, f'P{i}', make())
-        names.append(f'{_PLUGMOD}.P{i}')
+        # one module per provider: two providers may have the SAME class name (= plugin name) in different modules
+        cls = make()
+        pm = types.ModuleType(f'{_PLUGMOD}_{i}')
+        setattr(pm, cls.__name__, cls)
+        sys.modules[pm.__name__] = pm
+        mods.append(pm.__name__)
+        names.append(f'{pm.__name__}.{cls.__name__}')
     sys.modules[_PLUGMOD] = mod
     custom = dict(DEFAULT_PLUGIN_OFF)
     if case.get('python_plugin'):
@@ -690,7 +726,7 @@ def run_start(case):
     custom['PLUGINS'] = names
     for i, spec in enumerate(case['plugins']):
         if spec['behaviour'] == 'inactive':
-            custom[f'PLUGIN_P{i}'] = 'False'
+            custom['PLUGIN_' + (spec.get('cls') or f'P{i}').upper()] = 'False'
     saved = {k: os.environ.get(k) for k in ('DEEP_RESOURCE_ATTRIBUTES', 'DEEP_SERVICE_NAME')}
     try:
         for k in saved:
@@ -720,9 +756,82 @@ def run_start(case):
             if v is not None:
                 os.environ[k] = v
         sys.modules.pop(_PLUGMOD, None)
+        for m in mods:
+            sys.modules.pop(m, None)
 
 
 _ENV_KEYS = ('DEEP_RESOURCE_ATTRIBUTES', 'DEEP_SERVICE_NAME')
+
+
+def run_agg(case):
+    import logging as pylog
+    from deep.api.resource import Resource, ResourceDetector, get_aggregated_resources
+    pylog.disable(pylog.CRITICAL)
+    try:
+        dets = []
+        for spec in case['detectors']:
+            def make(spec=spec):
+                class D(ResourceDetector):
+                    def detect(self):
+                        if spec['behaviour'] == 'raise':
+                            raise RuntimeError('detector failure')
+                        return Resource(codec.mk_dict(spec['attrs']), spec['url'])
+                return D(raise_on_error=spec['roe'])
+            dets.append(make())
+        init = Resource(codec.mk_dict(case['initial']['attrs']), case['initial']['url'])
+        init0 = snap(init)
+        try:
+            res = get_aggregated_resources(dets, init)
+        except RuntimeError as e:
+            return {'reraised': str(e), 'initial_unchanged': snap(init) == init0}
+        a = res.attributes
+        same = Resource(dict(a), res.schema_url)
+        other = Resource(dict(a, **{'zz-other': 1}), res.schema_url)
+        views = {'len': len(a), 'iter': [codec.enc_key(k) for k in a], 'copy_keys': [codec.enc_key(k) for k in a.copy()],
+                 'items_agree': all(a[k] is a.copy()[k] or a[k] == a.copy()[k] for k in a),     # (nan != nan) 'copy_is_plain': type(a.copy()).__name__,
+                 'copy_detached': a.copy() is not a._dict}
+        return {'final': snap(res), 'initial_unchanged': snap(init) == init0, 'views': views,
+                'json': json.dumps(json.loads(res.to_json()), sort_keys=True),
+                'json_expected': json.dumps(json.loads(json.dumps({'attributes': dict(a), 'schema_url': res.schema_url})),
+                                            sort_keys=True),
+                'eq_same': res == same, 'hash_same': hash(res) == hash(same), 'eq_other': res == other,
+                'eq_foreign': res == 'x'}
+    except Exception as e:      # noqa: B902
+        return {'raised': f'{type(e).__name__}: {e}'}
+    finally:
+        pylog.disable(pylog.NOTSET)
+
+
+def oracle_agg(case, obs):
+    if 'raised' in obs:
+        return ['get_aggregated_resources raised: ' + obs['raised']]
+    v = []
+    reraise = any(d['behaviour'] == 'raise' and d['roe'] for d in case['detectors'])
+    if ('reraised' in obs) != reraise:
+        return [f'exception of a detector {"not " if reraise else ""}re-raised (raise_on_error={reraise})']
+    if not obs['initial_unchanged']:
+        v.append('the initial resource was modified')
+    if reraise:
+        return v
+    cur = ref_resource(case['initial']['attrs'], case['initial']['url'])
+    for d in case['detectors']:
+        nxt = ref_resource(d['attrs'], d['url']) if d['behaviour'] == 'ok' else {'items': [], 'url': ''}
+        cur, _ = ref_merge(cur, nxt)
+    if as_dict(obs['final']['attrs']) != as_dict(enc_ref(cur)) or obs['final']['url'] != cur['url']:
+        v.append('aggregated resource is not initial < detector 1 < detector 2 … (a failed detector contributing nothing)')
+    w = obs['views']
+    n = len(obs['final']['attrs'])
+    if not (w['len'] == n == len(w['iter']) == len(w['copy_keys']) and w['iter'] == w['copy_keys'] and w['items_agree']):
+        v.append(f'len / iteration / copy of the attributes disagree: {w}')
+    if not w['copy_detached']:
+        v.append('copy() hands out the container\'s own storage')
+    if obs['json'] != obs['json_expected']:
+        v.append(f'to_json {obs["json"]} is not the attributes and schema url {obs["json_expected"]}')
+    if not (obs['eq_same'] and obs['hash_same']) or obs['eq_other'] or obs['eq_foreign']:
+        v.append(f'resource identity: equal contents must be == with equal hash, different contents / foreign objects '
+                 f'not (==same {obs["eq_same"]}, hash {obs["hash_same"]}, ==other {obs["eq_other"]}, ==str {obs["eq_foreign"]})')
+    check_clean(obs['final']['attrs'], None, v)
+    return v
 
 
 def run_env(case):
@@ -767,7 +876,7 @@ def oracle_env(case, obs):
 
 def run_impl(case):
     core.use_repo()
-    return {'env': run_env, 'ba': run_ba, 'ctor': run_ctor, 'merge': run_merge, 'create': run_create, 'start': run_start,
+    return {'agg': run_agg, 'env': run_env, 'ba': run_ba, 'ctor': run_ctor, 'merge': run_merge, 'create': run_create, 'start': run_start,
             'sched': run_sched}[case['kind']](case)
 
 
@@ -1180,7 +1289,7 @@ def oracle_start(case, obs):
 
 
 def oracle(case, obs):
-    return {'env': oracle_env, 'ba': oracle_ba, 'ctor': oracle_ctor, 'merge': oracle_merge, 'create': oracle_create,
+    return {'agg': oracle_agg, 'env': oracle_env, 'ba': oracle_ba, 'ctor': oracle_ctor, 'merge': oracle_merge, 'create': oracle_create,
             'start': oracle_start, 'sched': oracle_sched}[case['kind']](case, obs)
 
 
@@ -1230,6 +1339,12 @@ def model_request(case, obs):
             started.add(i)
         return {'kind': 'sched', 'cap': case['cap'], 'mvl': case['mvl'], 'init': m_kvs(case['init']),
                 'immutable': case['immutable'], 'writers': ws, 'sched': steps}
+    if k == 'agg':
+        if 'raised' in obs:
+            return None
+        return {'kind': 'agg', 'base': {'attrs': m_kvs(case['initial']['attrs']), 'url': case['initial']['url']},
+                'dets': [{'ok': {'attrs': m_kvs(d['attrs']), 'url': d['url']}} if d['behaviour'] == 'ok'
+                         else {'fails': d['roe']} for d in case['detectors']]}
     if k == 'merge':
         return {'kind': 'merge', 'chain': [{'attrs': m_kvs(r['attrs']), 'url': r['url']} for r in case['chain']]}
     if k in ('create', 'start'):
@@ -1279,6 +1394,15 @@ def compare(case, obs, resp):
         if 'raised' in resp and obs['raised'].startswith(resp['raised']):
             return []
         return ['implementation raised, model does not: ' + obs['raised']]
+    if k == 'agg':
+        if ('raised' in resp) != ('reraised' in obs):
+            return [f'model {resp} vs implementation {obs}']
+        if 'raised' in resp:
+            return []
+        m, o = resp['final'], obs['final']
+        if m['attrs'] != codec.for_model(codec.strip_repr(o['attrs'])) or m['url'] != o['url']:
+            d.append(f'aggregated: model {m} vs implementation {codec.strip_repr(o)}')
+        return d
     if 'raised' in resp:
         return ['model raises ' + resp['raised'] + ', implementation does not']
     if k == 'merge':
@@ -1314,6 +1438,9 @@ def label(case, obs):
         cap = case['cap']
         return f'sched/{len(case["writers"])}w/' + ('overlap' if overlap else 'serial') + ('/merge_in' if merge else '') + \
             ('/cap0' if cap == 0 else '/capNone' if cap is None else '/full' if len(case['init']) >= cap else '/room')
+    if k == 'agg':
+        return 'agg/' + ('reraised' if 'reraised' in obs else 'failed-detector' if any(
+            d['behaviour'] == 'raise' for d in case['detectors']) else 'ok')
     if k == 'merge':
         refused = any(i.get('is_self') for i in obs.get('identity', []))
         return 'merge/' + ('schema-conflict' if refused else 'ok')
@@ -1338,6 +1465,8 @@ def nontrivial(case, obs):
             len(obs.get('dict', [])) < len([o for o in case['ops'] if o['op'] == 'set'])
     if k == 'sched':
         return label(case, obs).split('/')[2] == 'overlap'
+    if k == 'agg':
+        return len(case['detectors']) > 1
     if k == 'merge':
         return len(obs.get('steps', [])) > 1
     if k == 'ctor':
@@ -1346,6 +1475,11 @@ def nontrivial(case, obs):
 
 
 def shrink(case):
+    if case['kind'] == 'agg':
+        ds = case['detectors']
+        for i in range(len(ds)):
+            yield dict(case, detectors=ds[:i] + ds[i + 1:])
+        return
     if case['kind'] == 'env':
         t = case['env'].get('DEEP_RESOURCE_ATTRIBUTES')
         if t:
